@@ -132,6 +132,10 @@ class BasePolicy:
     def eval_unpack(self, value, i, n, state, flow):
         if isinstance(value, (ast.Tuple, ast.List)) and len(value.elts) == n:
             return self.eval(value.elts[i], state, flow)
+        if isinstance(value, ast.IfExp):
+            # a, b = X if c else (Y, Z)
+            l, r = self.eval_unpack(value.body, i, n, state, flow), self.eval_unpack(value.orelse, i, n, state, flow)
+            return (l | r) if self.may_union else (l & r)
         if isinstance(value, (ast.GeneratorExp, ast.ListComp)) and len(value.generators) == 1:
             # a, b = (f(v) for v in (x, y)): element-wise through the comprehension variable
             g = value.generators[0]
